@@ -698,6 +698,23 @@ def _check_climate(acc, data, time_cycle, exact=True,
                   None)
             continue
         calc = np.asarray(calc, float)
+        # every one of these statistics is unchanged when a constant is added
+        # to a series: the direct call on series with non-zero means (user-
+        # declared anomalies, a season selection) must give the same matrix
+        shifted = anom + (1.5 * np.arange(N) + 2.0)[None, :]
+        st2, calc2 = _call(net.calculate_similarity_measure, shifted)
+        acc.ev += 1
+        if st2 == "ok" and name != "partial":   # (singular cases: below)
+            calc2 = np.asarray(calc2, float)
+            both = np.isfinite(calc) & np.isfinite(calc2)
+            if name == "partial":
+                both &= ~np.eye(N, dtype=bool)
+            tol2 = dict(rtol=0, atol=mi_tol) if name == "mi" else TOL
+            if calc2.shape != calc.shape or not np.allclose(
+                    calc2[both], calc[both], **tol2):
+                acc.v(cname + ".calculate_similarity_measure:not-shift-"
+                      "invariant", "series with non-zero means (a constant "
+                      "added to every series)", calc2, calc)
         off = ~np.eye(N, dtype=bool)
         if name == "partial":
             cmp_mask = off
